@@ -9,13 +9,18 @@ git -C /repo worktree add --detach $WT HEAD >/dev/null 2>&1 || exit 3
 trap 'git -C /repo worktree remove --force $WT >/dev/null 2>&1' EXIT
 /tmp/mutkit/build.sh $WT >/dev/null 2>&1 || { echo "baseline build failed"; exit 3; }
 rundemo() { if [ -x $SRC/run.sh ]; then $SRC/run.sh $WT/_inst $WT $SRC $FLAGS 2>&1; else /tmp/mutkit/ddprun.sh $WT/_inst $SRC/demo.ddp $FLAGS 2>&1; fi | sed "s#$SRC/##g"; }
-base=$(rundemo)
+NREP=${NREP:-1}
+repdemo() { if [ "$NREP" = "1" ]; then rundemo; else for i in $(seq $NREP); do rundemo | md5sum; done | sort | uniq -c | awk '{print $1" runs -> output "$2}'; echo "(one output:)"; rundemo; fi; }
+ndistinct() { echo "$1" | grep -c "runs -> output"; }
+base=$(repdemo)
 git -C $WT apply $SRC/patch.diff || { echo "patch does not apply"; exit 3; }
 /tmp/mutkit/build.sh $WT >/dev/null 2>&1 || { echo "mutant build failed"; exit 3; }
-mut=$(rundemo)
+mut=$(repdemo)
 tests=$(/tmp/mutkit/gotest.sh $WT 2>&1 | grep -E "^(ok|FAIL|---)" | grep -v "build failed")
 nfail=$(echo "$tests" | grep -c "^FAIL\s\|^--- FAIL")
-if [ "$base" = "$mut" ]; then echo "demo does not distinguish"; exit 4; fi
+if [ "$NREP" != "1" ]; then
+  if [ "$(ndistinct "$base")" != "1" ] || [ "$(ndistinct "$mut")" -lt 2 ]; then echo "repeated demo does not distinguish: base=$(ndistinct "$base") mut=$(ndistinct "$mut") distinct outputs"; exit 4; fi
+elif [ "$base" = "$mut" ]; then echo "demo does not distinguish"; exit 4; fi
 if [ "$nfail" != "0" ]; then echo "repo tests fail with the mutant:"; echo "$tests"; exit 5; fi
 mkdir -p $OUT; cp $SRC/patch.diff $OUT/; cp $SRC/demo* $SRC/*.ddp $SRC/run.sh $OUT/ 2>/dev/null; cp $SRC/README.txt $OUT/ 2>/dev/null
 python3 - "$OUT" "$PROP" "$NEEDS" "$base" "$mut" "$tests" "$FLAGS" <<'P'
